@@ -89,11 +89,15 @@ pub fn run_prompt(args: Vec<String>) {
                     }
                 };
 
+                // A line that fails to compile must leave no trace: keep the state
+                // the line started with (the compiler's own copy is half updated)
+                let saved_symtab = symtab.clone();
+                let saved_constants = constants.clone();
                 let mut compiler = Compiler::new_with_state(symtab, constants);
                 if let Err(e) = compiler.compile(program) {
                     eprintln!("{}", e);
-                    symtab = compiler.symtab;
-                    constants = compiler.constants;
+                    symtab = saved_symtab;
+                    constants = saved_constants;
                     continue;
                 }
                 let bytecode = compiler.bytecode();
